@@ -27,3 +27,31 @@ def IsString (mt : Nat) (item c : Bytes) : Prop :=
 def intValue (mt n : Nat) : Int := if mt = 0 then (n : Int) else -1 - (n : Int)
 
 end WebPkg.Spec.Cbor
+
+namespace WebPkg.Spec.Cbor
+
+/-- bytewise lexicographic order (RFC 8949 section 4.2.1: "the bytewise lexicographic order of the
+    keys' deterministic encodings"), defined directly on byte strings -/
+inductive LexLt : Bytes → Bytes → Prop
+  | nil (b : UInt8) (bs : Bytes) : LexLt [] (b :: bs)
+  | head (a b : UInt8) (as bs : Bytes) : a < b → LexLt (a :: as) (b :: bs)
+  | tail (a : UInt8) (as bs : Bytes) : LexLt as bs → LexLt (a :: as) (a :: bs)
+
+/-- A single data item in RFC 8949 core deterministic encoding (section 4.2.1), restricted to the
+    subset unsigned integer / byte string / text string / array / map: every head in shortest form,
+    definite lengths only, map keys strictly ascending in bytewise lexicographic order of their
+    encodings (hence no duplicates). -/
+inductive DetItem : Bytes → Prop
+  | uint (h : Bytes) (n : Nat) : ShortestHead h 0 n → DetItem h
+  | str (mt : Nat) (h c : Bytes) : mt = 2 ∨ mt = 3 → ShortestHead h mt c.length → DetItem (h ++ c)
+  | array (h : Bytes) (items : List Bytes) : ShortestHead h 4 items.length →
+      (∀ i ∈ items, DetItem i) → DetItem (h ++ items.flatten)
+  | map (h : Bytes) (kvs : List (Bytes × Bytes)) : ShortestHead h 5 kvs.length →
+      (∀ kv ∈ kvs, DetItem kv.1) → (∀ kv ∈ kvs, DetItem kv.2) →
+      kvs.Pairwise (fun a b => LexLt a.1 b.1) →
+      DetItem (h ++ (kvs.map fun kv => kv.1 ++ kv.2).flatten)
+
+/-- a CBOR sequence of deterministically encoded items -/
+def DetSeq (bs : Bytes) : Prop := ∃ items : List Bytes, (∀ i ∈ items, DetItem i) ∧ bs = items.flatten
+
+end WebPkg.Spec.Cbor
